@@ -184,13 +184,19 @@ pub fn run_one(stream: &Stream, data: &[u8], cuts: &[(usize, CutKind)], handler_
         }
         reader.supplied_this_call = 0;
         let before = handed.len();
-        let r = fb.read_from(&mut reader, |f| {
-            if Some(handed.len()) == handler_fail_at {
-                return Err(Error::FrameUnexpected);
-            }
-            handed.push(f);
-            Ok(())
-        });
+        let r = std::panic::catch_unwind(std::panic::AssertUnwindSafe(|| {
+            fb.read_from(&mut reader, |f| {
+                if Some(handed.len()) == handler_fail_at {
+                    return Err(Error::FrameUnexpected);
+                }
+                handed.push(f);
+                Ok(())
+            })
+        }));
+        let r = match r {
+            Ok(r) => r,
+            Err(e) => return Some(("framebuf:panic".into(), format!("read_from panicked after {} bytes: {}", reader.pos, crate::slots::panic_msg(&e)))),
+        };
         let _ = before;
         match r {
             Ok(n) => {
@@ -386,6 +392,7 @@ fn explore_stream(idx: usize, s: &Stream, data: &[u8], pos: &[usize], first: Opt
 }
 
 pub fn run(args: &Args) {
+    std::panic::set_hook(Box::new(|_| {}));
     let thorough = args.thorough();
     let mut part = Part::new("C06", "framebuf", "seqx", "model_checking", &args.tier);
     part.rule = "byte streams built from real AMQP frames (heartbeats, methods, headers, bodies of 1..9000 bytes around the 4096-byte read quantum, five kinds of malformed frame, EOF or pending end, truncation at every frame-relative position) read through the real FrameBuffer with a scripted reader: every placement of up to 2 (thorough: 3 on streams <= 160 B) cuts, each cut a short read or a would-block, over every byte offset (streams <= 300 B) or the cut menu (frame boundaries +-1,+3,+6,+7,+8, mid-payload, 4096k+-2, n-1); plus one-byte-per-read and handler failure at each frame. Non-trivial: at least one cut.".into();
